@@ -261,11 +261,12 @@ func c09R1(c *eng.Ctx) {
 	for _, p := range pins {
 		p := p
 		in := &eng.Interp{W: c.W, Depth: 0}
+		rn := ld.Params[0].Name() // receiver name: memory cells are "<receiver>.<field>"
 		in.PinPath = func(path string) (eng.AV, bool) {
 			switch path {
-			case "f.rateLimiter":
+			case rn + ".rateLimiter":
 				return eng.AV{K: eng.ConstV, C: constant.MakeString(p.rl)}, true
-			case "f.clientSets":
+			case rn + ".clientSets":
 				if p.clientNil {
 					return eng.AV{K: eng.NilV}, true
 				}
